@@ -61,9 +61,9 @@ def hostile_host(rng):
     if k == 11:
         return b"a:b.sim", "colon"
     if k == 12:
-        return b"user@host.sim", "at"
+        return rng.choice([b"user@host.sim", b"good.sim@evil.sim", b"a/b.sim", b"evil.sim#good.sim", b"x?y.sim"]), "at"
     if k == 13:
-        return b"[host.sim]", "brackets"
+        return rng.choice([b"[host.sim]", b"[::1]", b"[fd09::5]", b"[host.sim", b"host].sim"]), "brackets"
     if k == 14:
         return b"caf\xe9.sim", "latin1"
     if k == 15:
@@ -97,6 +97,8 @@ def gen(rng, tier, i):
     port = rng.choice([0, 1, 80, 443, 65535, rng.randint(2, 65534)])
     if kind == "domain":
         host, hclass = hostile_host(rng)
+        if inb.startswith("http") and host in (b"[::1]", b"[fd09::5]"):
+            host = b"[host.sim]"     # in a CONNECT line these ARE the IPv6 literals, not names
     elif kind == "ipv4":
         host, hclass = ("10.9.%d.%d" % (rng.randint(0, 255), rng.randint(1, 254))).encode(), "ipv4"
         if outb != "direct" and rng.random() < 0.3:
@@ -214,6 +216,14 @@ def gen(rng, tier, i):
     return sc.plan(want_events=True)
 
 
+def _is_ip(b):
+    try:
+        ipaddress.ip_address(b.decode("ascii"))
+        return True
+    except (ValueError, UnicodeDecodeError):
+        return False
+
+
 def same_dest(kind, host, port, got_kind, got_host, got_port):
     if got_port != port:
         return False
@@ -277,8 +287,17 @@ def oracle(plan, out):
                     injected = "target %r is not host:port" % target[:80]
                 else:
                     th = hp[0]
-                    if th.startswith(b"[") and th.endswith(b"]") and kind == "ipv6":
-                        got = ("ipv6", th[1:-1].decode("latin1"), int(hp[1]))
+                    # authority-form (RFC 7230 5.3.3, RFC 3986 3.2.2): host = IP-literal / IPv4address / reg-name. Brackets
+                    # delimit an IPv6 literal and nothing else; ":", "/", "?", "#", "[", "]", "@" cannot occur in a reg-name
+                    # (a next hop that parses the authority as a URI takes "a@b" for host b, "[::1]" for the address ::1)
+                    if th.startswith(b"[") and th.endswith(b"]"):
+                        try:
+                            a6 = ipaddress.IPv6Address(th[1:-1].decode("ascii"))
+                            got = ("ipv6", th[1:-1].decode("latin1"), int(hp[1])) if kind == "ipv6" else ("ip", str(a6), int(hp[1]))
+                        except (ValueError, UnicodeDecodeError):
+                            injected = "brackets around something that is not an IPv6 literal in the request target %r" % target[:80]
+                    elif any(c in b"/?#[]@" for c in th) or (b":" in th and not _is_ip(th)):
+                        injected = "delimiter inside the host part of the request target %r" % target[:80]
                     else:
                         try:
                             if ipaddress.ip_address(th.decode("ascii")).version == 6:
